@@ -18,15 +18,25 @@ CMP_REGS = [(n, s) for n, s in simdrv.REGMAP if n not in ('f', 't')]
 
 
 class StepEnv:
-    def __init__(self, impls=simdrv.IMPLS, frame=69888, int_active=32):
+    def __init__(self, impls=simdrv.IMPLS, frame=69888, int_active=32, o7ffd=None):
+        """o7ffd=None: 48K list memory; otherwise 128K paged memory with that (fixed) paging value."""
+        self.is128 = o7ffd is not None
+        if self.is128:
+            frame, int_active = 70908, 36
         self.frame = frame
         self.impls = tuple(impls)
         self.refmem = bytearray(65536)
         self.shadow = [0] * 65536
         self.sims = {}
         self.logs = {}
+        self.last_regs = {}
         for impl in self.impls:
-            sim, regs, mem = simdrv.make48(impl, None, {'frame_duration': frame, 'int_active': int_active})
+            if self.is128:
+                sim, regs, mem = simdrv.make128(impl, [[0] * 16384 for _ in range(8)], o7ffd)
+                for rom in mem.roms:
+                    rom[:] = bytes(16384) if isinstance(rom, bytearray) else [0] * 16384
+            else:
+                sim, regs, mem = simdrv.make48(impl, None, {'frame_duration': frame, 'int_active': int_active})
             log = simdrv.PortLog()
             sim.set_tracer(log)
             self.sims[impl] = (sim, regs, mem)
@@ -48,7 +58,10 @@ class StepEnv:
         self.refmem[:] = bytes(65536)
         self.shadow[:] = [0] * 65536
         for sim, regs, mem in self.sims.values():
-            if isinstance(mem, list):
+            if self.is128:
+                for part in list(mem.banks) + list(mem.roms):
+                    part[:] = bytes(16384) if isinstance(part, bytearray) else [0] * 16384
+            elif isinstance(mem, list):
                 mem[:] = [0] * 65536
             else:
                 mem[:] = bytes(65536)
@@ -130,8 +143,11 @@ class StepEnv:
             # ports
             if log.log != s.ports:
                 raise Violation('ports:%s' % s.name, '%s [%s] %s: port accesses %r, reference %r' % (impl, s.name, hx, log.log[:6], s.ports[:6]), case)
+            self.last_regs[impl] = [int(x) for x in regs[:30]]
             # memory
-            if isinstance(mem, list):
+            if self.is128:
+                ok = all(mem[a] == refmem[a] for a in touched)
+            elif isinstance(mem, list):
                 if full_mem:
                     ok = mem == shadow
                 else:
@@ -139,7 +155,7 @@ class StepEnv:
             else:
                 ok = mem == refmem
             if not ok:
-                bad = [a for a in range(65536) if mem[a] != refmem[a]][:4]
+                bad = [a for a in (touched if self.is128 else range(65536)) if mem[a] != refmem[a]][:4]
                 raise Violation('memory:%s' % s.name, '%s [%s] %s: memory differs from reference at %s (got %s, want %s)' % (
                     impl, s.name, hx, bad, [mem[a] for a in bad], [refmem[a] for a in bad]), case)
         if t_expect is not None:
